@@ -749,7 +749,7 @@ pub fn run_c11(args: &Args) -> ! {
         }
         keys.lock().unwrap().insert(v.key);
     });
-    // (d) ownership check — sampled, labelled: real hash order, fresh hashers ×8 and 4 fresh processes
+    // (d) ownership check — sampled, labelled: real hash order, fresh hashers ×16 and 4 fresh processes
     let mut sampled = 0u64;
     let mut sampled_bad = 0u64;
     if !dl.expired() {
@@ -770,8 +770,13 @@ pub fn run_c11(args: &Args) -> ! {
                 reachable.insert(crate::dump::dump(&build(&c).an, &c).hash());
             }
             let mut observed: Vec<(String, u64)> = Vec::new();
-            for r in 0..8 {
-                observed.push((format!("in-process run {r}"), crate::c11x::real_order_dump_hash(&id)));
+            // 16 fresh analyses (fresh hasher instances), run side by side
+            let hashes: Vec<u64> = std::thread::scope(|sc| {
+                let hs: Vec<_> = (0..16).map(|_| sc.spawn(|| crate::c11x::real_order_dump_hash(&id))).collect();
+                hs.into_iter().filter_map(|h| h.join().ok()).collect()
+            });
+            for (r, h) in hashes.into_iter().enumerate() {
+                observed.push((format!("in-process run {r}"), h));
             }
             for r in 0..4 {
                 if let Some(h) = crate::c11x::child_dump_hash(args, &id, bi * 10 + r) {
